@@ -59,6 +59,8 @@ pub fn parse(input: &[u8]) -> Result<Vec<ExpansionDump>, TemplateError> {
 /// Route information stored at a node.
 #[derive(Clone, Debug, Eq, PartialEq)]
 pub struct DataDump {
+    /// The stored value, as mapped by the caller of `Router::verif_dump`.
+    pub data: u64,
     pub template: String,
     pub expanded: Option<String>,
     pub depth: usize,
@@ -134,7 +136,10 @@ impl DumpState for EndWildcardState {
     }
 }
 
-pub fn dump_node<T, S: NodeState + DumpState>(node: &Node<T, S>) -> NodeDump {
+pub fn dump_node<T, S: NodeState + DumpState>(
+    node: &Node<T, S>,
+    value: &dyn Fn(&T) -> u64,
+) -> NodeDump {
     let (kind, key, constraint) = node.state.dump_key();
 
     NodeDump {
@@ -142,6 +147,7 @@ pub fn dump_node<T, S: NodeState + DumpState>(node: &Node<T, S>) -> NodeDump {
         key,
         constraint,
         data: node.data.as_ref().map(|data| DataDump {
+            data: value(data.data()),
             template: data.template().to_owned(),
             expanded: data.expanded().map(ToOwned::to_owned),
             depth: data.depth(),
@@ -151,22 +157,22 @@ pub fn dump_node<T, S: NodeState + DumpState>(node: &Node<T, S>) -> NodeDump {
         wildcard_children_shortcut: node.wildcard_children_shortcut,
         needs_optimization: node.needs_optimization,
         children: [
-            node.static_children.iter().map(dump_node).collect(),
+            node.static_children.iter().map(|child| dump_node(child, value)).collect(),
             node.dynamic_constrained_children
                 .iter()
-                .map(dump_node)
+                .map(|child| dump_node(child, value))
                 .collect(),
-            node.dynamic_children.iter().map(dump_node).collect(),
+            node.dynamic_children.iter().map(|child| dump_node(child, value)).collect(),
             node.wildcard_constrained_children
                 .iter()
-                .map(dump_node)
+                .map(|child| dump_node(child, value))
                 .collect(),
-            node.wildcard_children.iter().map(dump_node).collect(),
+            node.wildcard_children.iter().map(|child| dump_node(child, value)).collect(),
             node.end_wildcard_constrained_children
                 .iter()
-                .map(dump_node)
+                .map(|child| dump_node(child, value))
                 .collect(),
-            node.end_wildcard_children.iter().map(dump_node).collect(),
+            node.end_wildcard_children.iter().map(|child| dump_node(child, value)).collect(),
         ],
     }
 }
